@@ -797,14 +797,14 @@ func TestVerifC13Child(t *testing.T) {
 		if _, err := out.WriteAt([]byte{o, byte(slot)}, int64(2*i)); err != nil {
 			os.Exit(98)
 		}
-		if o&c13FlagAlloc != 0 || (i-start)%4096 == 4095 {
+		if o&c13FlagAlloc != 0 || (i-start)%1024 == 1023 {
 			// the oversized slices are unreachable now: a collection frees them without
 			// scanning them, and their address space is reused by later allocations
 			runtime.GC()
 			var ms [1]metrics.Sample
 			ms[0].Name = "/memory/classes/heap/objects:bytes"
 			metrics.Read(ms[:])
-			if ms[0].Value.Uint64() > 1<<30 && i+1 < end {
+			if (ms[0].Value.Uint64() > 1<<30 || (o&c13FlagAlloc != 0 && alloc > 256<<20)) && i+1 < end {
 				// still holding on to it: continue in a fresh process (otherwise later,
 				// innocent inputs fail under RLIMIT_AS)
 				out.Close()
